@@ -1,6 +1,7 @@
 import Ecal.Lemmas.EvalHeap
 import Ecal.Lemmas.EvalPaths
 import Ecal.Lemmas.EvalWF
+import Ecal.Lemmas.EvalPres
 import Ecal.Lemmas.EvalFrame
 import Ecal.Lemmas.EvalLists
 import Ecal.Lemmas.EvalNew
@@ -19,6 +20,7 @@ equations that tie the mutual evaluator to these functions.
 Proved: lookup_nearest, assign_nearest_or_local, let_local, inner_not_visible_outside, call_fresh_locals,
 closure_sees_definition_scope, call_does_not_write_enclosing_frames, args_missing_default_extra_ignored,
 prims_by_value_containers_by_ref, read_after_write (cell) and read_after_write_path (setValue / getValue), 
+call_preserves_wf (+ _noDefaults), call_frame_invisible_noDefaults, writes_preserve_wf, control_flow_preserves_invariants,
 new_has_all_template_props (transitive), own_property_wins, method_this, init_once_with_args,
 init_once_with_args_and_supers, init_reads_super, addSuperClasses_cycle.  Hypotheses are listed with each theorem.
 -/
@@ -395,6 +397,36 @@ example : ScopesWF exRun1.2 ∧ (2 : Nat) ∉ exRun1.2.chain 10000 1 := by
   have := call_frame_invisible_noDefaults (fun d => eval 50 1 d) exFr [some exParamA] [.bool true] exSt exRun1.2 2 exSt_wf
     (by decide) hpl hnp rfl
   exact ⟨this.1, this.2.2.2.1 1 10000 (by decide)⟩
+
+/-- The control-flow skeleton of the evaluator preserves EVERY state invariant its parts preserve, for every outcome
+    (errors, break / continue / return signals, fuel): `if` chains, condition loops, iterator loops, the except
+    dispatch, `try` with otherwise and with finally, and the body of a call (`ifChain`, `guardLoop`, `iterLoop`,
+    `dispatchExcept`, `tryCore`, `tryFinally`, `callCore` — the combinators the mutual evaluator calls with closures
+    over itself).  With `I = ScopesWF` this reduces "the evaluator preserves `ScopesWF`" to its leaves (expressions,
+    assignments, declarations, calls), which is the part that stays open. -/
+theorem control_flow_preserves_invariants (I : St → Prop) :
+    (∀ l : List (M Val × M Val), (∀ gb ∈ l, Pres I gb.1 ∧ Pres I gb.2) → Pres I (ifChain l)) ∧
+    (∀ guard body : M Val, Pres I guard → Pres I body → ∀ f, Pres I (guardLoop guard body f)) ∧
+    (∀ (σ : Type) (next : σ → M (Val × σ)) (bnd : Val → M Unit) (body : M Val),
+      (∀ s, Pres I (next s)) → (∀ v, Pres I (bnd v)) → Pres I body → ∀ f s, Pres I (iterLoop next bnd body f s)) ∧
+    (∀ (hs : List Handler) (e : Sig), (∀ h ∈ hs, ∀ e, Pres I (h e)) → Pres I (dispatchExcept hs e)) ∧
+    (∀ (body : M Val) (hs : List Handler) (oth : Option (M Val)), Pres I body → (∀ h ∈ hs, ∀ e, Pres I (h e)) →
+      (∀ o, oth = some o → Pres I o) → Pres I (tryCore body hs oth)) ∧
+    (∀ (main : M Val) (fin : Option (M Val)), Pres I main → (∀ f, fin = some f → Pres I f) → Pres I (tryFinally main fin)) ∧
+    (∀ body : M Val, Pres I body → Pres I (callCore body)) :=
+  ⟨Pres.ifChain I, Pres.guardLoop I, fun σ next bnd body => Pres.iterLoop I next bnd body, Pres.dispatchExcept I,
+   Pres.tryCore I, Pres.tryFinally I, Pres.callCore I⟩
+
+/-- non-vacuity with `I = ScopesWF`: a `try` whose body declares a local (`setLocalValue`) and whose finally block
+    assigns (`setValue`) preserves well-formedness, by `writes_preserve_wf` at the leaves -/
+example (sc : Nat) (a b : List Nat) (x y : Val) :
+    Pres ScopesWF (tryFinally (tryCore (do setLocalValue sc a x; pure Val.null) [] none) (some (do setValue sc b y; pure Val.null))) := by
+  have hl : Pres ScopesWF (do setLocalValue sc a x; pure Val.null : M Val) :=
+    Pres.bind _ _ _ (fun s r s' h hr => (setLocalValue_wf sc a x s s' r h hr).1) (fun _ => Pres.pure _ _)
+  have hs : Pres ScopesWF (do setValue sc b y; pure Val.null : M Val) :=
+    Pres.bind _ _ _ (fun s r s' h hr => (setValue_wf sc b y s s' r h hr).1) (fun _ => Pres.pure _ _)
+  refine (control_flow_preserves_invariants ScopesWF).2.2.2.2.2.1 _ _ ?_ (fun f hf => by injection hf with hf; rw [← hf]; exact hs)
+  exact (control_flow_preserves_invariants ScopesWF).2.2.2.2.1 _ [] none hl (fun h hm => by cases hm) (fun o ho => by cases ho)
 
 /-- Variable writes keep the table well-formed for EVERY name and EVERY outcome: `setValue` (plain names write one
     variable, dotted names only the heap) and `setLocalValue` (the `let` node); together with the initial table, new
